@@ -821,7 +821,7 @@ Proof.
     apply str_eqb_eq in E2. subst. reflexivity.
 Qed.
 
-Definition demo_cfg : config := mkConfig 1 1 (lit "Martian Proxy") 2000.
+Definition demo_cfg : config := mkConfig 1 1 (lit "Martian Proxy") 2000 false false.
 
 (* "[::1]" (brackets, no port): the certificate handed out does not verify for
    the name it was requested under, nor for the address the client means *)
@@ -849,4 +849,4 @@ Qed.
 Lemma subsecond_validity_refuted :
   exists cfg t, (0 < cfg_validity cfg)%Z /\
     in_window (issue demo_ip cfg 0 (lit "example.com") t t) t = false.
-Proof. exists (mkConfig 1 1 (lit "o") 500), 5400%Z. split; [reflexivity|vm_compute; reflexivity]. Qed.
+Proof. exists (mkConfig 1 1 (lit "o") 500 false false), 5400%Z. split; [reflexivity|vm_compute; reflexivity]. Qed.
